@@ -67,7 +67,12 @@ def render_atom(a):
     raise AssertionError(a)
 
 
+STAR_ALIASES = ['*.*', '.', '()', '.*', '*.', '*()', '.()', '(*)', '*']
+
+
 def render_pattern(p):
+    if p.get('staralias'):
+        return p['staralias']
     s = ''
     if p.get('conn'):
         s += p['conn'] + ': '
@@ -156,6 +161,8 @@ def atom_value(a, cl):
 
 
 def pattern_value(p, cl, conn_name):
+    if p.get('staralias'):
+        return MUST        # another spelling of "every message"
     if p.get('conn') and p['conn'] != conn_name:
         return MUSTNOT
     o = p.get('obj')
